@@ -109,7 +109,7 @@ func (g *G) Key() string {
 		return string(r.Bytes(r.Range(1, 6)))
 	case 2:
 		g.feat("key.awkward")
-		return []string{"a b", "a,b", `"q"`, "-", "a:b", "omitempty", "list", "é", "1", "0x", "a.b", "{", "'"}[r.Intn(13)]
+		return []string{"a b", "a,b", `"q"`, "-", "a:b", "omitempty", "list", "é", "1", "0x", "a.b", "{", "'", "2b", "1.5", ".5", "7L", "3e2f", "+4", "-7", "007"}[r.Intn(21)]
 	case 3:
 		if g.C.LongString && r.Intn(4) == 0 {
 			g.feat("key.long")
